@@ -1,57 +1,25 @@
 #![allow(warnings)]
 pub mod rt;
-#[path = "gen/m0t.rs"] mod m0t;
 #[path = "gen/m0a.rs"] mod m0a;
-#[path = "gen/m1t.rs"] mod m1t;
 #[path = "gen/m1a.rs"] mod m1a;
-#[path = "gen/m2t.rs"] mod m2t;
 #[path = "gen/m2a.rs"] mod m2a;
-#[path = "gen/m3t.rs"] mod m3t;
 #[path = "gen/m3a.rs"] mod m3a;
-#[path = "gen/m4t.rs"] mod m4t;
 #[path = "gen/m4a.rs"] mod m4a;
-#[path = "gen/m5t.rs"] mod m5t;
 #[path = "gen/m5a.rs"] mod m5a;
-#[path = "gen/m6t.rs"] mod m6t;
 #[path = "gen/m6a.rs"] mod m6a;
-#[path = "gen/m7t.rs"] mod m7t;
 #[path = "gen/m7a.rs"] mod m7a;
-#[path = "gen/m8t.rs"] mod m8t;
 #[path = "gen/m8a.rs"] mod m8a;
-#[path = "gen/m9t.rs"] mod m9t;
 #[path = "gen/m9a.rs"] mod m9a;
-#[path = "gen/m10t.rs"] mod m10t;
 #[path = "gen/m10a.rs"] mod m10a;
-#[path = "gen/m11t.rs"] mod m11t;
 #[path = "gen/m11a.rs"] mod m11a;
-#[path = "gen/m12t.rs"] mod m12t;
 #[path = "gen/m12a.rs"] mod m12a;
-#[path = "gen/m13t.rs"] mod m13t;
 #[path = "gen/m13a.rs"] mod m13a;
-#[path = "gen/m14t.rs"] mod m14t;
 #[path = "gen/m14a.rs"] mod m14a;
-#[path = "gen/m15t.rs"] mod m15t;
 #[path = "gen/m15a.rs"] mod m15a;
-#[path = "gen/m18t.rs"] mod m18t;
+#[path = "gen/m16a.rs"] mod m16a;
+#[path = "gen/m17a.rs"] mod m17a;
 #[path = "gen/m18a.rs"] mod m18a;
-#[path = "gen/m19t.rs"] mod m19t;
 #[path = "gen/m19a.rs"] mod m19a;
-#[path = "gen/m20t.rs"] mod m20t;
-#[path = "gen/m20a.rs"] mod m20a;
-#[path = "gen/m23t.rs"] mod m23t;
-#[path = "gen/m23a.rs"] mod m23a;
-#[path = "gen/m24t.rs"] mod m24t;
-#[path = "gen/m24a.rs"] mod m24a;
-#[path = "gen/m25t.rs"] mod m25t;
-#[path = "gen/m25a.rs"] mod m25a;
-#[path = "gen/m29t.rs"] mod m29t;
-#[path = "gen/m29a.rs"] mod m29a;
-#[path = "gen/m30t.rs"] mod m30t;
-#[path = "gen/m30a.rs"] mod m30a;
-#[path = "gen/m31t.rs"] mod m31t;
-#[path = "gen/m31a.rs"] mod m31a;
-#[path = "gen/m32t.rs"] mod m32t;
-#[path = "gen/m32a.rs"] mod m32a;
 
 fn main() {
     use std::io::{BufRead, Write};
@@ -64,60 +32,26 @@ fn main() {
         let mut f = line.splitn(4, '\t');
         let (m, p, items, orc) = (f.next().unwrap(), f.next().unwrap(), f.next().unwrap_or(""), f.next().unwrap_or(""));
         let r = match (m, p) {
-        ("m0t", "E") => rt::run_case(items, orc, |it| m0t::EParser::new().parse(it)),
-        ("m0a", "E") => rt::run_case(items, orc, |it| m0a::EParser::new().parse(it)),
-        ("m1t", "S") => rt::run_case(items, orc, |it| m1t::SParser::new().parse(it)),
+        ("m0a", "S") => rt::run_case(items, orc, |it| m0a::SParser::new().parse(it)),
         ("m1a", "S") => rt::run_case(items, orc, |it| m1a::SParser::new().parse(it)),
-        ("m2t", "S") => rt::run_case(items, orc, |it| m2t::SParser::new().parse(it)),
         ("m2a", "S") => rt::run_case(items, orc, |it| m2a::SParser::new().parse(it)),
-        ("m3t", "S") => rt::run_case(items, orc, |it| m3t::SParser::new().parse(it)),
         ("m3a", "S") => rt::run_case(items, orc, |it| m3a::SParser::new().parse(it)),
-        ("m4t", "S") => rt::run_case(items, orc, |it| m4t::SParser::new().parse(it)),
         ("m4a", "S") => rt::run_case(items, orc, |it| m4a::SParser::new().parse(it)),
-        ("m5t", "S") => rt::run_case(items, orc, |it| m5t::SParser::new().parse(it)),
         ("m5a", "S") => rt::run_case(items, orc, |it| m5a::SParser::new().parse(it)),
-        ("m6t", "S") => rt::run_case(items, orc, |it| m6t::SParser::new().parse(it)),
         ("m6a", "S") => rt::run_case(items, orc, |it| m6a::SParser::new().parse(it)),
-        ("m7t", "P") => rt::run_case(items, orc, |it| m7t::PParser::new().parse(it)),
-        ("m7a", "P") => rt::run_case(items, orc, |it| m7a::PParser::new().parse(it)),
-        ("m8t", "S") => rt::run_case(items, orc, |it| m8t::SParser::new().parse(it)),
+        ("m7a", "S") => rt::run_case(items, orc, |it| m7a::SParser::new().parse(it)),
         ("m8a", "S") => rt::run_case(items, orc, |it| m8a::SParser::new().parse(it)),
-        ("m9t", "S") => rt::run_case(items, orc, |it| m9t::SParser::new().parse(it)),
         ("m9a", "S") => rt::run_case(items, orc, |it| m9a::SParser::new().parse(it)),
-        ("m10t", "S") => rt::run_case(items, orc, |it| m10t::SParser::new().parse(it)),
         ("m10a", "S") => rt::run_case(items, orc, |it| m10a::SParser::new().parse(it)),
-        ("m11t", "A") => rt::run_case(items, orc, |it| m11t::AParser::new().parse(it)),
-        ("m11t", "B") => rt::run_case(items, orc, |it| m11t::BParser::new().parse(it)),
-        ("m11a", "A") => rt::run_case(items, orc, |it| m11a::AParser::new().parse(it)),
-        ("m11a", "B") => rt::run_case(items, orc, |it| m11a::BParser::new().parse(it)),
-        ("m12t", "S") => rt::run_case(items, orc, |it| m12t::SParser::new().parse(it)),
+        ("m11a", "S") => rt::run_case(items, orc, |it| m11a::SParser::new().parse(it)),
         ("m12a", "S") => rt::run_case(items, orc, |it| m12a::SParser::new().parse(it)),
-        ("m13t", "S") => rt::run_case(items, orc, |it| m13t::SParser::new().parse(it)),
         ("m13a", "S") => rt::run_case(items, orc, |it| m13a::SParser::new().parse(it)),
-        ("m14t", "S") => rt::run_case(items, orc, |it| m14t::SParser::new().parse(it)),
         ("m14a", "S") => rt::run_case(items, orc, |it| m14a::SParser::new().parse(it)),
-        ("m15t", "S") => rt::run_case(items, orc, |it| m15t::SParser::new().parse(it)),
         ("m15a", "S") => rt::run_case(items, orc, |it| m15a::SParser::new().parse(it)),
-        ("m18t", "N0") => rt::run_case(items, orc, |it| m18t::N0Parser::new().parse(it)),
-        ("m18a", "N0") => rt::run_case(items, orc, |it| m18a::N0Parser::new().parse(it)),
-        ("m19t", "N0") => rt::run_case(items, orc, |it| m19t::N0Parser::new().parse(it)),
-        ("m19a", "N0") => rt::run_case(items, orc, |it| m19a::N0Parser::new().parse(it)),
-        ("m20t", "N0") => rt::run_case(items, orc, |it| m20t::N0Parser::new().parse(it)),
-        ("m20a", "N0") => rt::run_case(items, orc, |it| m20a::N0Parser::new().parse(it)),
-        ("m23t", "N0") => rt::run_case(items, orc, |it| m23t::N0Parser::new().parse(it)),
-        ("m23a", "N0") => rt::run_case(items, orc, |it| m23a::N0Parser::new().parse(it)),
-        ("m24t", "N0") => rt::run_case(items, orc, |it| m24t::N0Parser::new().parse(it)),
-        ("m24a", "N0") => rt::run_case(items, orc, |it| m24a::N0Parser::new().parse(it)),
-        ("m25t", "N0") => rt::run_case(items, orc, |it| m25t::N0Parser::new().parse(it)),
-        ("m25a", "N0") => rt::run_case(items, orc, |it| m25a::N0Parser::new().parse(it)),
-        ("m29t", "N0") => rt::run_case(items, orc, |it| m29t::N0Parser::new().parse(it)),
-        ("m29a", "N0") => rt::run_case(items, orc, |it| m29a::N0Parser::new().parse(it)),
-        ("m30t", "S") => rt::run_case(items, orc, |it| m30t::SParser::new().parse(it)),
-        ("m30a", "S") => rt::run_case(items, orc, |it| m30a::SParser::new().parse(it)),
-        ("m31t", "S") => rt::run_case(items, orc, |it| m31t::SParser::new().parse(it)),
-        ("m31a", "S") => rt::run_case(items, orc, |it| m31a::SParser::new().parse(it)),
-        ("m32t", "S") => rt::run_case(items, orc, |it| m32t::SParser::new().parse(it)),
-        ("m32a", "S") => rt::run_case(items, orc, |it| m32a::SParser::new().parse(it)),
+        ("m16a", "E") => rt::run_case(items, orc, |it| m16a::EParser::new().parse(it)),
+        ("m17a", "S") => rt::run_case(items, orc, |it| m17a::SParser::new().parse(it)),
+        ("m18a", "S") => rt::run_case(items, orc, |it| m18a::SParser::new().parse(it)),
+        ("m19a", "S") => rt::run_case(items, orc, |it| m19a::SParser::new().parse(it)),
             _ => "NOPARSER".to_string(),
         };
         writeln!(out, "{}", r).unwrap();
